@@ -109,4 +109,13 @@ def extra_checks(tier, seed, active_known):
 	if fails:
 		x.violation = {'what': fails[0]['what'], 'function': 'whole pipeline (rogw/tranp/bin/transpile.py wiring)', 'inputs': {**fails[0], 'pool': pool}, 'clause': 'transpile(m) in history == transpile(m) in a fresh process'}
 		x.finding_key = 'session-twin'
-	return [x]
+	from twins import default_args_lint
+	import os as _os
+	nd, badd = default_args_lint.run(_os.environ.get('PYVC_REPO', '/repo'))
+	lint = Extra(name='no parameter with a mutable default value (one object shared by every call: hidden per-process state) is mutated, stored or returned', kind='closed', ok=not badd, cases=nd, exhaustive=True,
+		detail=f'{nd} parameters with a list / dict / set default under rogw/, {len(badd)} of them escape')
+	if badd:
+		b0 = badd[0]
+		lint.violation = {'what': f"{b0['file']}:{b0['function']}: parameter {b0['parameter']} = {b0['default']} is one object for all calls and {b0['why']}: what a call does depends on the calls before it", 'function': f"{b0['file']}:{b0['function']}", 'inputs': b0, 'clause': 'no state survives a call through a default argument'}
+		lint.finding_key = 'default-args-lint'
+	return [x, lint]
